@@ -12,7 +12,7 @@ import os
 import sys
 
 V = os.path.dirname(os.path.dirname(os.path.abspath(__file__)))
-ORD = {6: "SIXTH", 7: "SEVENTH", 8: "EIGHTH", 9: "NINTH"}
+ORD = {6: "SIXTH", 7: "SEVENTH", 8: "EIGHTH", 9: "NINTH", 10: "TENTH"}
 
 HEAD = """# Assignment for seeder r{rnd}-{k}
 
@@ -69,6 +69,23 @@ four conditions were confirmed.
 """
 
 STYLES = {
+    "lifecycle": """* In this round aim for LIFECYCLE / STATE defects: the change must leave every single operation on a fresh object correct and
+  break the property only through what is LEFT BEHIND or CARRIED OVER: state that is not reset between two uses of the same
+  object (second request on a kept-alive connection, second message, second render, second start after stop, second fetch through
+  the same client, re-parse into the same map, re-entrant call from a callback), a cache / memo / class-level or module-level
+  variable shared between instances that should be per instance (or invalidated on change), a resource that is not released on
+  one of the ways an operation can end (socket, timer, waiter entry, signal handler, registration, future left pending), or a
+  counter / flag that drifts over a long history (off by one per cycle).
+* The demo should therefore drive a HISTORY: do the thing once (fine), then again / on a second instance / after an intervening
+  different operation, and show the statement broken on the later step.""",
+    "boundary": """* In this round aim for BOUNDARY / ENCODING defects: the change must be invisible for ordinary inputs and break the property
+  only at an edge of an input class that the statement's domain includes: empty / single-element / maximal values, exact limit
+  and limit +- 1, zero and negative numbers where allowed, lengths at encoding thresholds (125/126/65535/65536, 2**31, 2**63,
+  4300-digit integers), first and last members of a character class (0x20, 0x21, 0x7e, 0x7f, 0x80, 0xff), non-ASCII and
+  non-BMP text, bytes vs str forms, repeated / duplicated elements, percent-escapes of reserved characters, case variants of
+  case-insensitive tokens, leading / trailing / doubled separators, values that look like another type ("0", "00", "+1", "1e3").
+* Prefer a site where a comparison operator, slice bound, regex character class, default argument, or encode/decode pair decides
+  the edge.""",
     "faultpath": """* In this round aim for FAULT-PATH defects: the change must be invisible on every success path and break the property only on an
   error, timeout, cancellation, close/shutdown, retry or limit-exceeded path that the statement's domain includes — or when USER
   code (a handler, callback, delegate method, WSGI app, template expression, overridden hook) raises or misbehaves at a specific
